@@ -245,6 +245,8 @@ class Store(registering.Registrar):
             raise ValueError("Empty Share Name %s" % share.name)
 
         levels = share.name.strip('.').split('.') #strip leading and following '.' and split
+        if not all(levels): #check before creating any nodes
+            raise ValueError("Empty level in '%s'" % share.name)
         node = self.shares
         depth = 0
         for level in levels[0:-1]: #all but last
@@ -280,6 +282,8 @@ class Store(registering.Registrar):
               the slice [-1] = [0] is the single item
         """
         levels = name.strip('.').split('.') #strip leading and following '.' and split
+        if not all(levels): #check before creating any nodes
+            raise ValueError("Empty level in '%s'" % name)
         node = self.shares
         depth = 0
         for level in levels:
